@@ -519,6 +519,12 @@ pub fn check(scn: &Scenario, c: &mut Counters) -> Verdict {
                 }
                 Res::Err(e) => {
                     let Some(failures) = failed_site.get(&ri) else {
+                        if e.class != "UserFunctionError" {
+                            // the rule failed for a reason that is no user-function failure (a limit, a
+                            // variant this harness does not know): outside what C11 states
+                            c.bump("skipped.rule_failed_for_other_reason");
+                            return Verdict::skip(format!("rule {ri} failed with {e:?} without any call failing"));
+                        }
                         return Verdict::violation(
                             "error-without-failed-call",
                             format!("rule {ri} of evaluation {task} | failed with {e:?} although no call of this rule failed in this evaluation"),
